@@ -56,7 +56,15 @@ fn flip(rng: &mut Rng, bytes: &[u8]) -> Vec<u8> {
 pub fn case_damage(scratch: &Path, meta: usize, id: &str, seed: u64, len: usize, aimed_only: bool, replay: Option<&Case>) -> CaseResult {
     let mut rng = Rng::new(seed);
     let mut r = Runner::new(scratch.join(id), meta);
-    let gcfg = GenCfg { allow_reopen: true, big_weight: 5 + rng.below(6), max_queues: 1 + rng.below(4) as usize, ..Default::default() };
+    // aimed sweep (every other aimed case): a shorter history with frequent delete / re-create, and
+    // EVERY frame still on disk damaged in turn (up to 160, evenly spread) instead of a random handful
+    let sweep = aimed_only && replay.is_none() && seed % 2 == 1;
+    let gcfg = if sweep {
+        GenCfg { allow_reopen: true, big_weight: 2, max_queues: 1 + rng.below(2) as usize, churn: true, ..Default::default() }
+    } else {
+        GenCfg { allow_reopen: true, big_weight: 5 + rng.below(6), max_queues: 1 + rng.below(4) as usize, ..Default::default() }
+    };
+    let len = if sweep { len / 2 + 10 } else { len };
     let mut frames: Vec<Frame> = Vec::new();
     let mut appended: HashSet<(String, u64, Vec<u8>)> = HashSet::new();
     let mut rec_call: HashMap<(String, u64, u64), usize> = HashMap::new();
@@ -165,7 +173,7 @@ pub fn case_damage(scratch: &Path, meta: usize, id: &str, seed: u64, len: usize,
     let live_frames: Vec<Frame> = frames.iter().filter(|fr| files.contains(&fr.file)).cloned().collect();
     let final_spec = r.spec.clone();
 
-    let variants = if replay.is_some() { fixed_variants.len() } else { 10 + rng.below(10) as usize };
+    let variants = if replay.is_some() { fixed_variants.len() } else if sweep { live_frames.len().min(160) } else { 10 + rng.below(10) as usize };
     for v in 0..variants {
         r.apply(&Op::Restore);
         let mut hit_call: Option<usize> = None;
@@ -192,7 +200,10 @@ pub fn case_damage(scratch: &Path, meta: usize, id: &str, seed: u64, len: usize,
             let k = if aimed_only { rng.below(3) } else { rng.below(14) };
             if k < 3 && !live_frames.is_empty() {
                 // aimed: payload or checksum bytes of one frame
-                let fr = rng.pick(&live_frames).clone();
+                let fr = if sweep { live_frames[v * live_frames.len() / variants].clone() } else { rng.pick(&live_frames).clone() };
+                if sweep {
+                    r.stats.inc("damage.sweep_frames");
+                }
                 let c = content(fr.file);
                 let in_payload = fr.len > 7 && rng.chance(2, 3);
                 let (a, b) = if in_payload { (fr.off + 7, fr.off + fr.len) } else { (fr.off, fr.off + 4) };
